@@ -52,7 +52,10 @@ package oauthex
 //@   ensures @fetch-only-from-https-or-loopback calls(fetch) <= 1 && (calls(fetch) == 1 ==> httpsOrLoopback(metadataURL) && callArg(fetch, 1, 2) == metadataURL)
 //@   ensures @metadata-used-only-if-resource-matches result.0 != nil ==> result.1 == nil && calls(fetch) == 1 && result.0 == callResult(fetch, 1, 0) && at(fetched, result.0.Resource) == resourceURL
 //@   ensures @authorization-servers-are-safe result.0 != nil ==> (forall i int :: {absElem(at(fetched, result.0.AuthorizationServers), off(at(fetched, result.0.AuthorizationServers)) + i)} 0 <= i && i < at(fetched, len(result.0.AuthorizationServers)) ==> safeScheme(at(fetched, result.0.AuthorizationServers[i])) && httpsOrLoopback(at(fetched, result.0.AuthorizationServers[i])))
-//@   loop 1: invariant @checked-so-far local(prm) == callResult(fetch, 1, 0) && (forall i int :: {absElem(local(prm).AuthorizationServers, off(local(prm).AuthorizationServers) + i)} 0 <= i && i < $idx ==> safeScheme(local(prm).AuthorizationServers[i]) && httpsOrLoopback(local(prm).AuthorizationServers[i]))
+// (the property's own words: no URL field of metadata that is used has a script-capable scheme)
+//@   ensures @every-url-field-has-a-safe-scheme result.0 != nil ==> safeScheme(at(fetched, result.0.JWKSURI)) && safeScheme(at(fetched, result.0.ResourceDocumentation)) && safeScheme(at(fetched, result.0.ResourcePolicyURI)) && safeScheme(at(fetched, result.0.ResourceTOSURI))
+//@   loop 1: invariant @fields-checked-so-far local(prm) == callResult(fetch, 1, 0) && ($idx > 0 ==> safeScheme(local(prm).JWKSURI)) && ($idx > 1 ==> safeScheme(local(prm).ResourceDocumentation)) && ($idx > 2 ==> safeScheme(local(prm).ResourcePolicyURI)) && ($idx > 3 ==> safeScheme(local(prm).ResourceTOSURI))
+//@   loop 2: invariant @checked-so-far local(prm) == callResult(fetch, 1, 0) && safeScheme(local(prm).JWKSURI) && safeScheme(local(prm).ResourceDocumentation) && safeScheme(local(prm).ResourcePolicyURI) && safeScheme(local(prm).ResourceTOSURI) && (forall i int :: {absElem(local(prm).AuthorizationServers, off(local(prm).AuthorizationServers) + i)} 0 <= i && i < $idx ==> safeScheme(local(prm).AuthorizationServers[i]) && httpsOrLoopback(local(prm).AuthorizationServers[i]))
 
 // Registration responses: every URL field handed back has a safe scheme.
 //@ func validateClientRegistrationURLs [C15]
